@@ -1,5 +1,5 @@
 """C07: see DESIGN.md section 3 C07 (fault enumeration)."""
-from _ccmon import native, miri, floor_msgs, COMMON_ASSUMPTIONS, NOFIN, FINONLY, NONE
+from _ccmon import native, miri, evolve, floor_msgs, COMMON_ASSUMPTIONS, NOFIN, FINONLY, NONE
 from driver import FULL, ALL_FEATURE_SETS
 
 LEVEL = "fault_enumeration"
@@ -10,7 +10,7 @@ RULE = ("base histories: random short histories of mode C07 (10..45 operations, 
         "in a third of the runs of the 'double' steps a second fault is armed for the continuation). The panic must arrive at the API boundary "
         "with its payload, is_tracing() must be false and the collector idle afterwards; the rest of the history plus the epilogue "
         "(release everything, collect until quiet) runs with the safety oracles of C01 / C03 / C05 / C08 on (degraded mode: leaks are allowed). "
-        "evaluations = runs (faulted + base); distinct = distinct (history, fault point) pairs; non-trivial iff the fault unwound out of a "
+        "In addition the novelty-guided mutational generator (harness/src/evolve.rs) runs with one injected panic in a quarter of its executions. evaluations = runs (faulted + base); distinct = distinct (history, fault point) pairs; non-trivial iff the fault unwound out of a "
         "collector pass and the continuation's collections reclaimed at least one object.")
 ASSUMPTIONS = COMMON_ASSUMPTIONS + ["a fault is a Rust panic raised by the payload callback itself (not aborts, not allocation failure)"]
 
@@ -26,6 +26,8 @@ def plan(ctx):
         steps += native(ctx, p, "C07", NOFIN, "debug", 200, 1, faults="single")
         steps += native(ctx, p, "C07", FINONLY, "debug", 200, 1, faults="single")
         steps += native(ctx, p, "C07", NONE, "debug", 200, 1, faults="single")
+        steps += evolve(ctx, p, "C07", FULL, "release", 12000, 3, faults="single")
+        steps += evolve(ctx, p, "C07", FULL, "debug", 5000, 1, faults="single")
         steps += miri(ctx, p, "C07", FULL, 12, 12, faults="single", extra=["--max-fault-points", "3", "--max-ops", "18"])
     else:
         for fs in ALL_FEATURE_SETS:
@@ -34,6 +36,11 @@ def plan(ctx):
                 steps += native(ctx, p, "C07", fs, profile, 12000 if main else 1500, 6 if main else 1, faults="single", timeout=3000)
             steps += native(ctx, p, "C07", fs, "debug", 0, 1, faults="single", gen="directed", timeout=3000)
         steps += native(ctx, p, "C07", FULL, "debug", 4000, 4, faults="double", tag="dbl-", timeout=3000)
+        steps += evolve(ctx, p, "C07", FULL, "release", 200000, 12, faults="single", timeout=3000)
+        steps += evolve(ctx, p, "C07", FULL, "debug", 60000, 4, faults="single", timeout=3000)
+        steps += evolve(ctx, p, "C07", NOFIN, "release", 60000, 2, faults="single", timeout=3000)
+        steps += evolve(ctx, p, "C07", FINONLY, "release", 60000, 2, faults="single", timeout=3000)
+        steps += evolve(ctx, p, "C07", FULL, "release", 8000, 4, faults="single", tool="asan", alloc="track", timeout=3000)
         steps += native(ctx, p, "C07", FULL, "release", 600, 6, faults="single", tool="asan", alloc="track", timeout=3000)
         steps += native(ctx, p, "C07", FULL, "release", 40, 4, faults="single", tool="valgrind", alloc="track", timeout=3000)
         steps += native(ctx, p, "C07", FULL, "release", 0, 2, faults="single", gen="directed", tool="valgrind", alloc="track", timeout=3000)
